@@ -66,7 +66,9 @@ static int composite_search(const std::string &obl, bool order_axioms)
 static std::vector<RCP<const MIntPoly>> mpoly_pool()
 {
     RCP<const Basic> x = symbol("x"), y = symbol("y");
-    std::vector<vec_basic> vs = {{}, {x}, {y}, {x, y}};
+    // generators that are eq but print differently: f(0.0) and f(-0.0)
+    RCP<const Basic> fp = function_symbol("f", real_double(0.0)), fm = function_symbol("f", real_double(-0.0));
+    std::vector<vec_basic> vs = {{}, {x}, {y}, {x, y}, {fp}, {fm}};
     std::vector<RCP<const MIntPoly>> o;
     for (auto &v : vs) {
         unsigned n = (unsigned)v.size();
